@@ -77,6 +77,9 @@ def run(ctx: Context) -> None:
             var = norm(asg.targets[0]) if isinstance(asg, ast.Assign) else "?"
             resp = [x for x in own_nodes(f11.node) if isinstance(x, ast.Call) and norm(x.func) == "Response"]
             ext = next((k.value for k in resp[0].keywords if k.arg == "extensions"), None) if resp else None
+            if isinstance(ext, ast.Name):
+                ea = ctx.prov.expand(ext, f11, resp[0], depth=1)      # the mapping built in a local first
+                ext = ea[0] if len(ea) == 1 else ext
             extd = {k.value: norm(v) for k, v in zip(ext.keys, ext.values)} if isinstance(ext, ast.Dict) else {}
             rep.ob("C17.R2", fkey(tree, f11, "exposed-stream"), extd.get("network_stream") == var, where(f11, resp[0] if resp else None), f"extensions['network_stream'] <- {extd.get('network_stream')} (wrapped variable `{var}`)")
         hh = N.func("http11", "AsyncHTTP11Connection._receive_response_headers")
